@@ -252,19 +252,21 @@ class SpecMixin(object):
     if isinstance(it, VRef) and it.cls in ('list', 'tuple'):
       return it, lambda s, i: self.list_get(s, it, i)
     if isinstance(it, VRef) and it.cls in ('dict', 'set'):
-      st.assume(self.dict_wf(st, it))
+      if ('$keypos', it.t.get_id()) not in st.ghost:
+        st.axiom(self.dict_wf(st, it))
       keys = self.dict_keys(st, it)
       kk = getattr(it, 'keykind', None)
-      return keys, lambda s, i: self.from_val(s, z3.Select(self.list_items(s, keys), i), kk)
+      return keys, lambda s, i: self.key_value(s, z3.Select(self.list_items(s, keys), i), kk)
     if isinstance(it, VIterView):
       base = it.base
       if it.how in ('items', 'values', 'keys') and isinstance(base, VRef) and base.cls == 'dict':
-        st.assume(self.dict_wf(st, base))
+        if ('$keypos', base.t.get_id()) not in st.ghost:
+          st.axiom(self.dict_wf(st, base))
         keys = self.dict_keys(st, base)
         kk = getattr(base, 'keykind', None)
         def elem(s, i, how=it.how):
           kt = z3.Select(self.list_items(s, keys), i)
-          k = self.from_val(s, kt, kk)
+          k = self.key_value(s, kt, kk)
           if how == 'keys':
             return k
           v = self.from_val(s, z3.Select(self.dict_val(s, base), kt), base.elem)
@@ -309,8 +311,71 @@ class SpecMixin(object):
     return None
 
   # ------------------------------------------------------------------ comprehensions / quantifiers
+  def symbolic_dictcomp(self, st, e):
+    """{k: V(k) for k in <symbolic dict> if C(k)}: pointwise definition of the new dict (key order unspecified)."""
+    if len(e.generators) != 1 or not isinstance(e.generators[0].target, ast.Name) or not isinstance(e.key, ast.Name) \
+        or e.key.id != e.generators[0].target.id:
+      raise Unsupported('dict comprehension over a symbolic iterable must have the form {k: v(k) for k in d if c(k)}')
+    g = e.generators[0]
+    rs = self.eval(st, g.iter)
+    if len(rs) != 1 or isinstance(rs[0][1], Raised):
+      raise Unsupported('dict comprehension iterable forks')
+    st, src = rs[0]
+    if isinstance(src, VIterView) and src.how == 'keys':
+      src = src.base
+    if not (isinstance(src, VRef) and src.cls == 'dict'):
+      raise Unsupported('symbolic dict comprehension over %r' % (src,))
+    k = fresh('dc_k', Val)
+    s = st.fork()
+    saved = self.spec_mode
+    self.spec_mode = True
+    try:
+      s.env = dict(st.env)
+      # the key is used as it is (no projection), with its declared shape recorded as tag knowledge
+      kv = VVal(k)
+      if src.keykind is not None and src.keykind.tag in ('str', 'int', 'bytes', 'bool', 'float'):
+        s.tags[k.get_id()] = src.keykind.tag
+      s.env[g.target.id] = kv
+      base = len(s.pc)
+      conds = [self.eval_merged_bool(s, c) for c in g.ifs]
+      cond = z3.And(z3.Select(self.dict_dom(s, src), k), *conds)
+      s.assume(cond)
+      vrs = self.eval(s, e.value)
+      if len(vrs) != 1 or isinstance(vrs[0][1], Raised):
+        raise Unsupported('dict comprehension value forks / raises')
+      val = self.to_val(vrs[0][0], vrs[0][1])
+    finally:
+      self.spec_mode = saved
+    names = [str(k)]
+    for c in vrs[0][0].pc[base:]:
+      if c.get_id() in vrs[0][0].ax and not any(n in c.sexpr() for n in names):
+        st.axiom(c)
+    d = self.alloc(st, 'dict', elem=None)
+    d.keykind = src.keykind
+    ndom = fresh('dc_dom', z3.ArraySort(Val, z3.BoolSort()))
+    nval = fresh('dc_val', z3.ArraySort(Val, Val))
+    st.axiom(z3.ForAll([k], z3.Select(ndom, k) == cond))
+    st.axiom(z3.ForAll([k], z3.Implies(cond, z3.Select(nval, k) == val)))
+    nk = self.alloc(st, 'list')
+    self.list_set(st, nk, fresh('dc_n', z3.IntSort()), fresh('dc_keys', z3.ArraySort(z3.IntSort(), Val)))
+    st.axiom(self.list_len(st, nk) >= 0)
+    self.dict_set_raw(st, d, ndom, nval, nk.t)
+    return [(st, d)]
+
   def comprehension(self, st, e, kind):
     """Eager evaluation of list/set/dict comprehensions over concrete-length iterables."""
+    if kind == 'dict':
+      try:
+        snap = st.fork()
+        return self._comprehension(st, e, kind)
+      except Unsupported as u:
+        if 'symbolic iterable' not in str(u):
+          raise
+        st.env, st.pc, st.heap, st.ax = snap.env, snap.pc, snap.heap, snap.ax
+        return self.symbolic_dictcomp(st, e)
+    return self._comprehension(st, e, kind)
+
+  def _comprehension(self, st, e, kind):
     gens = e.generators
     saved = dict(st.env)
     def go(s, gi):
